@@ -29,6 +29,10 @@ class PCTSPAdapter(RoutingAdapter):
     sol_fn = "check_C06_sol"
     reward_td = "reset"
     shard = 150
+    # keys of the step output compared with the row model after every step in C02 / C04 (Harness/HPCTSP.v book_obs)
+    book_keys = (("i", "int"), ("current_node", "int"), ("cur_total_prize", "f"), ("visited", "bits"))
+    book_fn = "check_book"
+    book_type = "pctsp_book"
 
     def variants(self, tier):
         return [{"num_loc": n} for n in ([1, 3, 4, 7] if tier == "quick" else [1, 2, 3, 4, 6, 10, 20])]
@@ -196,6 +200,13 @@ class PCTSPAdapter(RoutingAdapter):
             return (0 if n >= 3 else 1, 0 if kind.startswith("exact/") and kind not in ("exact/random64", "exact/dup") else 1)
         order = sorted(range(len(items)), key=lambda k: (rank(items[k]), ctx.rng.random()))
         return super().extra_c05(ctx, tier, [items[k] for k in order])
+
+    def extra_c03(self, ctx, tier, items):
+        """get_reward on hand-built action lists that the checker accepts but no mask-made rollout produces
+        (vt/envs/_handsol.py): all customers WITHOUT the closing depot visit ([[1,2,3]]: the tour still starts and ends at
+        the depot), prefixes, interior depot visits, batches of differently shaped lists, one-column action tensors"""
+        from vt.envs import _handsol
+        return _handsol.check_rewards(self, ctx, tier, _handsol.reward_batches(ctx.rng, items, tier))
 
     def extra_c06(self, ctx, tier, items):
         """the base class corrupts up to 60 completed episodes drawn at random: make sure the ones on the
